@@ -312,7 +312,9 @@ def C10():
                mirjobs.bitmap_dispatch),
         MirJob("c10_mir_data_state_only", "bitmap events are produced only while the client is in the Data state (shared with C12)", mirjobs.global_read),
     ]
-    return Prop("C10", [], jobs,
+    jobs.append(Kani("c13_h13a_all_headers", "tpkt::Client::read on every 4-byte header (slow-path and fast-path, all declared lengths): the payload handed up (to the fast-path reader) has exactly the declared length for every short- and long-form fast-path header, incl. lengths >= 0x4000",
+                     bounds={"header_bytes": 4}, symbolic=["head: [u8;4]"], functions=["core::tpkt::Client::read", "model::link::Link::read"], timeout=400, mem_gb=6))
+    return Prop("C10", [("core/tpkt.rs", "tpkt.rs")], jobs, lowerings=["L2"], stubs=[S1],
                 assumptions=["the rectangles reach read_fast_path's loops in wire order: Array::read pushes parsed elements in the order read (c18_data_array) - but parsing ts_fp_update / ts_bitmap_data from bytes is NOT executed"],
                 text="Reduced claim, decided on the MIR of the real read_fast_path: per iteration of the update and rectangle loops, which paths invoke the callback, how often, for which update kinds, and from which wire fields each BitmapEvent field is built (dataflow on the explored path + SMT for the compression flag).",
                 note="NOT covered: that the update/rectangle lists handed to these loops are exactly what the server sent - parsing them is a nested size-dependent Component parse that CBMC cannot execute (DESIGN §2); data lengths 0..65535, long/short fast-path forms are C13's subject. This check decides the dispatch half of the property only.",
@@ -366,6 +368,8 @@ def C15():
                mirjobs.ntlm_derivation),
         MirJob("c15_mir_negotiate_flags_closures", "NTLM message closures (Version field skipping) have no failing arithmetic for any flag word", mirjobs.size_closures(r"^(negotiate_message|challenge_message|authenticate_message)::", 131072, "NTLM")),
     ]
+    jobs.append(MirJob("c15_mir_utf16_encoders", "nla::ntlm::unicode (feeds NTOWFv2, the user/domain fields and TSPasswordCreds) and String::to_unicode: every unit of str::encode_utf16 is written, unconverted, little-endian; confirmed against a from-the-definition UTF-16LE encoder on non-BMP text",
+                       mirjobs.utf16_encoders))
     return Prop("C15", [], jobs,
                 assumptions=["HMAC-MD5, MD4, RC4 key schedule and the proofs computed with them are NOT decided (third-party crates pinned by the repo's vector tests; CBMC cannot execute them)"],
                 text="Reduced claim: the part of 'accepted by an independent MS-NLMP server' that is arithmetic and wiring - every length/offset pair addresses its field inside the token for all field lengths and flags, the optional Version field agrees with the offset base, the token is assembled from the right inputs in the right order, the MIC covers the three handshake messages.",
@@ -423,6 +427,8 @@ def C03():
         MirJob("c03_mir_negotiation_first", "the negotiation request precedes everything and Client Info follows the security negotiation (shared with C02)",
                mirjobs.must_follow_ok(r"^client::<impl at src/core/client\.rs[^>]*>::connect$", r"x224::Client::<S>::connect$", r"^connect::<S>$|mcs::Client::<S>::connect$", "Client Info / MCS connect")),
     ]
+    jobs.append(MirJob("c03_mir_layouts", "every structure exchanged during the connection sequence has the fields, widths, byte order and optional trailing fields of the specification (56 record constructors; a conforming server's GCC core block may stop after the version or after clientRequestedProtocols)",
+                       mirjobs.layout_tables))
     return Prop("C03", [], jobs,
                 assumptions=["E3 explores every path of each function with call results unconstrained; the order is read off the successful paths"],
                 text="Reduced claim: the ORDER of the connection sequence, the dependence of every message on the preceding server reply, and the wiring of the server-assigned identifiers, decided on the MIR of mcs::Client::connect, Connector::connect, write_client_finalize, mcs::Client::shutdown and the activation automaton.",
@@ -508,6 +514,10 @@ def C05():
                                      mirjobs.fn_asserts(r"^read_attach_user_confirm$", "attach confirm", loop_bound=0), mirjobs.fn_asserts(r"^read_channel_join_confirm$", "join confirm", loop_bound=0))))
     jobs.append(MirJob("c05_mir_per_integer16", "per::read_integer_16: value + minimum cannot overflow for any wire value and minimum (else it is refused)",
                        mirjobs.fn_asserts(r"^read_integer_16$", "PER integer16", native=mirjobs.per_native)))
+    jobs.append(Kani("c13_h13a_all_headers", "tpkt::Client::read on every 4-byte header (slow-path and fast-path, all declared lengths): value or error, no panic, allocation = declared payload length <= 65531",
+                     bounds={"header_bytes": 4}, symbolic=["head: [u8;4]"], functions=["core::tpkt::Client::read", "model::link::Link::read"], timeout=400, mem_gb=6))
+    jobs.append(MirJob("c05_mir_tpkt_read_arith", "tpkt::Client::read (the first reader of every server byte): no arithmetic check of its own can fail for any header byte and any declared length, in both fast-path length forms and the slow-path form (SMT over all header values)",
+                       mirjobs.fn_asserts(r"^tpkt::<impl at src/core/tpkt\.rs[^>]*>::read$", "TPKT / fast-path header", loop_bound=1, native=lambda m: mirjobs.TPKT_READ_NATIVE)))
     return Prop("C05", [("core/per.rs", "per.rs"), ("core/tpkt.rs", "tpkt.rs"), ("core/x224.rs", "x224.rs"), ("core/mcs.rs", "mcs.rs"), ("core/gcc.rs", "gcc.rs")], jobs, lowerings=["L2"],
                 assumptions=[S1, S2, S6, DEV, "L2 light error payloads", "E3: call results and loads are unconstrained symbols (over-approximation); Component::length() of a block header = 4 (decided by c04_gcc_block_header)"], stubs=[S1, S2],
                 text="Hostile bytes at the parser entries reachable during connection setup, decided two ways on the real code: (E1) every byte string up to 4-8 bytes at the PER readers, attach-user/channel-join confirms, X.224 data header and the head of the GCC response; (E3) every value of every wire field that becomes a buffer size or an arithmetic operand in the licence/GCC/PER layouts.",
@@ -540,6 +550,8 @@ def C06():
                                                   r"^global::<impl at src/core/global\.rs[^>]*>::read_demand_active_pdu$", r"^global::<impl at src/core/global\.rs[^>]*>::from_control$",
                                                   r"^global::<impl at src/core/global\.rs[^>]*>::from_pdu$", r"^global::<impl at src/core/global\.rs[^>]*>::from_fp$",
                                                   r"^capability::<impl at src/core/capability\.rs[^>]*>::from_capability_set$")])))
+    jobs.append(MirJob("c06_mir_read_layout_arrays", "no record constructor builds its default array with Array::from_trame (whose element factory panics on the first element read): every layout a server PDU can be parsed into reads its arrays through a real factory",
+                       mirjobs.no_from_trame_in_layouts))
     return Prop("C06", [("core/tpkt.rs", "tpkt.rs"), ("core/x224.rs", "x224.rs")], jobs, lowerings=["L2"],
                 assumptions=[S1, S6, DEV, "L2 light error payloads", "E3: the wire field of each closure is an unconstrained symbol"], stubs=[S1],
                 text="Kernel of the property: (E3) for every layout of global.rs/capability.rs that turns a wire field into a buffer size or a skip decision, all 65536 (256) field values: no panicking arithmetic, bounded size; (E1) x224 / tpkt header parsing on every header / payload up to 6 bytes; (E3) mcs::Client::read's own arithmetic. These subtractions are where a hostile length crashes a session.",
